@@ -13,8 +13,6 @@ From KV.Kcp Require Import Kcp Step Net Live.
 Import ListNotations.
 Local Open Scope Z_scope.
 
-Definition set_state (k : kcp) (st : Z) : kcp := set_timer k st (ts_flush k) (updated k).
-Definition eq_mod_state (k1 k2 : kcp) : Prop := set_state k1 0 = set_state k2 0.
 
 (* 1. no give-up: the connection state flag (0 / dead link) influences no transition and no output *)
 Theorem c02_no_giveup :
@@ -40,9 +38,6 @@ Print Assumptions c02_ack_owed.
 (* 3. a flush of either kind empties the list: each pending ack is on the wire, or its number is
    already below rcv_nxt and is covered by the cumulative una = rcv_nxt that every emitted segment
    carries (the newest pending ack is always emitted, so una is always announced) *)
-Definition emits_ack (o : list bytes) (una sn ts : Z) : Prop :=
-  exists d segs s, In d o /\ d = concat (map encode_seg segs) /\ In s segs /\
-                   s_cmd s = c_IKCP_CMD_ACK /\ s_sn s = sn /\ s_ts s = ts /\ s_una s = una.
 
 Theorem c02_flush_acks :
   forall k ft now k' nx o, inv k -> (ft = FLUSH_FULL \/ ft = FLUSH_ACKONLY) ->
@@ -56,9 +51,6 @@ Print Assumptions c02_flush_acks.
 
 (* 4. an unacknowledged segment whose retransmission timer has expired - or that was never sent -
    is put on the wire by the next full flush, with its own number, fragment counter and payload *)
-Definition emits_push (o : list bytes) (sn frg : Z) (data : bytes) : Prop :=
-  exists d segs s, In d o /\ d = concat (map encode_seg segs) /\ In s segs /\
-                   s_cmd s = c_IKCP_CMD_PUSH /\ s_sn s = sn /\ s_frg s = frg /\ s_data s = data.
 
 Theorem c02_retransmit_due :
   forall k now k' nx o s, inv k -> flush k FLUSH_FULL now = Ok (k', nx, o) ->
